@@ -388,6 +388,65 @@ def h_cats_clause(p: int, q: int, c1: int, op1: int, v1: int) -> bool:
     return not api.filter_out_cats(rg, filters, {})
 
 
+def _pick(v, lo, hi):
+    """the same number as a plain int, one path per value (explicit branching: the values are enumerated
+    systematically instead of being drawn from solver models)"""
+    for k in range(lo, hi + 1):
+        if v == k:
+            return k
+    raise ValueError(v)
+
+
+LABELS = [0, 7, -12, 2147483648, 9007199254740993, -9007199254740993, 9223372036854775807, -9223372036854775808,
+          1234567890123456789]
+
+
+def h_cats_label_typing(i: int, op1: int, d: int) -> bool:
+    """
+    pre: 0 <= i < 9 and 0 <= op1 < 7 and -1 <= d <= 1
+    post: __return__
+    """
+    # the partition label is directory TEXT; with the real text -> number typing (util.val_to_num, no stub) a filter
+    # constant next to the label's own value (d = -1, 0, +1) prunes the group only if the value really fails it -
+    # including labels beyond 2**53, where a detour through floating point would merge neighbours
+    import fastparquet.util as util
+    i, op1, d = _pick(i, 0, 8), _pick(op1, 0, 6), _pick(d, -1, 1)
+    v = LABELS[i]
+    const = v + d
+    rg = _part_rg(5, [("p", str(v))])
+    saved = api.val_to_num
+    api.val_to_num = util.val_to_num
+    try:
+        pruned = api.filter_out_cats(rg, [("p", OPS[op1], const)], {})
+    finally:
+        api.val_to_num = saved
+    if not row_pred(OPS[op1], v, const):
+        return True
+    return not pruned
+
+
+def replay_h_cats_label_typing(i, op1, d):
+    import tempfile, os, shutil
+    import pandas as pd
+    import fastparquet
+    v = LABELS[i]
+    const = v + d
+    if not (-2 ** 63 <= const < 2 ** 63):
+        return None, "filter constant outside int64"
+    dd = tempfile.mkdtemp(prefix="c05-")
+    try:
+        dn = os.path.join(dd, "ds")
+        fastparquet.write(dn, pd.DataFrame({"p": [v, v], "a": [1, 2]}), file_scheme="hive", partition_on=["p"])
+        pf = fastparquet.ParquetFile(dn)
+        flt = [("p", OPS[op1], const)]
+        n = len(pf.to_pandas(filters=flt))
+        if n != 2:
+            return True, "partition p=%d: filter %r keeps %d of the 2 rows that satisfy it" % (v, flt, n)
+        return False, "kept"
+    finally:
+        shutil.rmtree(dd, ignore_errors=True)
+
+
 def h_cats_two_clauses(p: int, q: int, op1: int, v1: int, op2: int, v2: int, swap: bool) -> bool:
     """
     pre: 0 <= op1 < 7 and 0 <= op2 < 7
@@ -400,6 +459,95 @@ def h_cats_two_clauses(p: int, q: int, op1: int, v1: int, op2: int, v2: int, swa
     if not (row_pred(OPS[op1], p, v1) and row_pred(OPS[op2], q, v2)):
         return True
     return not api.filter_out_cats(rg, filters, {})
+
+
+def h_cats_same_column(p: int, op1: int, v1: int, op2: int, v2: int) -> bool:
+    """
+    pre: 0 <= op1 < 7 and 0 <= op2 < 7
+    post: __return__
+    """
+    # two conditions on the SAME partition column in one AND group (a range): the group is pruned whenever its value
+    # fails either of them - and never when it satisfies both
+    rg = _part_rg(5, [("p", p)])
+    filters = [("p", OPS[op1], v1), ("p", OPS[op2], v2)]
+    pruned = api.filter_out_cats(rg, filters, {})
+    ok = row_pred(OPS[op1], p, v1) and row_pred(OPS[op2], p, v2)
+    return pruned == (not ok)
+
+
+def replay_h_cats_same_column(p, op1, v1, op2, v2):
+    import tempfile, os, shutil
+    import pandas as pd
+    import fastparquet
+    dd = tempfile.mkdtemp(prefix="c05-")
+    try:
+        dn = os.path.join(dd, "ds")
+        other = p + 1000
+        fastparquet.write(dn, pd.DataFrame({"p": [p, p, other], "a": [1, 2, 3]}), file_scheme="hive", partition_on=["p"])
+        pf = fastparquet.ParquetFile(dn)
+        flt = [("p", OPS[op1], v1), ("p", OPS[op2], v2)]
+        out = pf.to_pandas(filters=flt, row_filter=True)
+        want = sorted(a for a, pv in ((1, p), (2, p), (3, other)) if row_pred(OPS[op1], pv, v1) and row_pred(OPS[op2], pv, v2))
+        got = sorted(int(x) for x in out["a"])
+        if got != want:
+            return True, "filters %r on partitions p=%d / p=%d return rows a=%r, expected %r" % (flt, p, other, got, want)
+        return False, "range on the partition column honoured"
+    finally:
+        shutil.rmtree(dd, ignore_errors=True)
+
+
+class _PFcols:
+    """what filter_row_groups reads from a handle"""
+
+    def __init__(self):
+        self.columns = ["a", "b"]
+        self.cats = {"p": [1, 2]}
+        self.row_groups = []
+        self.schema = SchemaShim()
+        self.partition_meta = {}
+
+
+def h_unknown_filter_column(g0: int, g1: int, g2: int, ngroups: int, flat: bool) -> bool:
+    """
+    pre: 0 <= g0 <= 3 and 0 <= g1 <= 3 and 0 <= g2 <= 3 and 1 <= ngroups <= 3
+    post: __return__
+    """
+    # filters naming a column the dataset does not have are refused (ValueError) wherever the name occurs: in a flat
+    # list, or in any of the OR groups - and filters naming only existing columns are accepted
+    names = ["a", "b", "p", "nosuch"]
+    groups = [[(names[g], "==", 1)] for g in (g0, g1, g2)][:ngroups]
+    filters = [c for grp in groups for c in grp] if flat else groups
+    bad = any(names[g] == "nosuch" for g in (g0, g1, g2)[:ngroups])
+    try:
+        api.filter_row_groups(_PFcols(), filters)
+    except ValueError:
+        return bad
+    return not bad
+
+
+def replay_h_unknown_filter_column(g0, g1, g2, ngroups, flat):
+    import tempfile, os, shutil
+    import pandas as pd
+    import fastparquet
+    names = ["a", "b", "p", "nosuch"]
+    groups = [[(names[g], "==", 1)] for g in (g0, g1, g2)][:ngroups]
+    filters = [c for grp in groups for c in grp] if flat else groups
+    bad = any(names[g] == "nosuch" for g in (g0, g1, g2)[:ngroups])
+    dd = tempfile.mkdtemp(prefix="c05-")
+    try:
+        dn = os.path.join(dd, "ds")
+        fastparquet.write(dn, pd.DataFrame({"p": [1, 2], "a": [1, 2], "b": [1, 1]}), file_scheme="hive", partition_on=["p"])
+        pf = fastparquet.ParquetFile(dn)
+        try:
+            out = pf.to_pandas(filters=filters)
+        except ValueError:
+            return (not bad), "refused"
+        if bad:
+            return True, "filters %r name a column that does not exist and are accepted (%d rows returned)" % (
+                filters, len(out))
+        return False, "accepted"
+    finally:
+        shutil.rmtree(dd, ignore_errors=True)
 
 
 def replay_h_cats_two_clauses(p, q, op1, v1, op2, v2, swap):
